@@ -29,7 +29,7 @@ func init() {
 			"(restrict) for each of the 10 leaf Node types a partial evaluation of Evaluate under label-absent / label-present agrees with the literal returned by LabelRestrictions " +
 			"(MustBePresent ⇒ absent→false; MustHaveOneOfValues ⇒ absent→false and present→ val==node.F / node.F.Contains(val) on the same field; key = the label looked up), " +
 			"and NotNode only derives MustBeAbsent from operand types whose Evaluate is constantly true when the label is present; " +
-			"(combine) for every Node type with an operand list (And/Or, classified as conjunction/disjunction from its Evaluate), every path of the loop that merges an operand's restrictions into the accumulated map is executed symbolically and, per field of LabelRestriction (enumerated from the struct), a disjunction keeps a bool restriction only if both merged entries impose it and a value list only if both are non-nil and the result is computed from both, a conjunction only if one of the entries imposes it; a disjunction merges every operand; " +
+			"(combine) for every Node type with an operand list (And/Or, classified as conjunction/disjunction from its Evaluate), every path of the loop that merges an operand's restrictions into the accumulated map is executed symbolically (in-package helpers that take/return/capture a restriction or the maps, or that are loop-free computations on bools and lists, are executed as part of the path with their parameters bound to the arguments — so the merge, the keep-or-drop decision and the map write may sit in helpers, methods with pointer receivers or closures; merge loops are also found in helpers that are handed the accumulated map) and, per field of LabelRestriction (enumerated from the struct), a disjunction keeps a bool restriction only if both merged entries impose it and a value list only if both are non-nil and the result is computed from both, a conjunction only if one of the entries imposes it; a disjunction merges every operand; " +
 			"(parentreg) a parent registry entry is deleted only when it has no children and no labels (tested on the entry deleted); on a parents update an item is unregistered from / the registry entry dropped for an old parent only if that parent is not among the new parents (membership test using the same projection of old and new parents) or after re-registration; an item's parent list holds registry objects only — so every parent an item references is the object that receives that parent's label updates; " +
 			"(sortedset) the parser's value-set type is found structurally (the named slice type with a method that binary-searches its receiver: StringSet.Contains) and every creation of such a value from a plain slice - explicit conversion, implicit conversion in an assignment/return/struct literal, composite literal, append to a set - in the parser and label index packages is justified: the source is nil or has at most one element, or it is sorted (library sort, or a helper that sorts its parameter on every path) on every path that reaches the conversion or that path establishes len<=1, and elements appended on the way are taken from that same sorted slice; plain []Handle values (MustHaveOneOfValues lists, which Or builds in source order) carry no ordering guarantee; " +
 			"(candidates) in SelectorAndNamedPortIndex the scan strategy that one label index (endpoint-own or parent) offers for a label restriction is adopted as the candidate scan only where every path has tested the other index's strategy for the same label and restriction to be empty - an endpoint can satisfy a restriction through its own or an inherited label, and an endpoint left out of the scan is never evaluated.",
@@ -311,16 +311,25 @@ func runC07(c *Ctx) {
 	c.Rule("C07.parentreg", "E-GUARD/E-ORDER/E-FLOW", "a parent registry entry is deleted only when it has no children and no labels; an item is unregistered from / the registry entry dropped for an old parent only if that parent is not among the item's new parents (or after re-registration); an item's parent list holds registry objects only", 4)
 	c.Rule("C07.restrict", "partial-eval", "per leaf Node type: LabelRestrictions literal is implied by Evaluate partially evaluated under label absent/present; NotNode derives MustBeAbsent only from always-true-when-present operands", 11)
 
-	m := c07BuildModel(c, p)
-	starts, stops := c07Alternate(c, m)
-	c07Eval(c, m, starts, stops)
-	c07Rescan(c, m, starts, stops)
-	c07Restrict(c, p)
-	c07ParentReg(c, p, "C07.parentreg")
-	c07Combine(c, p)
+	// Each family runs on its own (c01Isolated): an anchor lost by one of them breaks
+	// the run but does not silence the families that do not depend on it.
+	var m *c07Model
+	c01Isolated(c, func() { m = c07BuildModel(c, p) })
+	if m != nil {
+		var starts, stops map[*ssa.Function]bool
+		alternated := false
+		c01Isolated(c, func() { starts, stops = c07Alternate(c, m); alternated = true })
+		if alternated {
+			c01Isolated(c, func() { c07Eval(c, m, starts, stops) })
+			c01Isolated(c, func() { c07Rescan(c, m, starts, stops) })
+		}
+	}
+	c01Isolated(c, func() { c07Restrict(c, p) })
+	c01Isolated(c, func() { c07ParentReg(c, p, "C07.parentreg") })
+	c01Isolated(c, func() { c07Combine(c, p) })
 
 	c.Rule("C07.sortedset", "typestate / E-GUARD", "the parser's value-set type (the named slice type whose method binary-searches its receiver) is only created from a value of that type, from nil / at most one element, or from a plain slice that is sorted on every path reaching the conversion (explicit or implicit), elements appended on the way being taken from that sorted slice", 2)
-	c07SortedSet(c, p)
+	c01Isolated(c, func() { c07SortedSet(c, p) })
 
 	// The candidate scan of SelectorAndNamedPortIndex decides which endpoints a newly added selector is
 	// ever evaluated against: an endpoint the scan skips is never reported as matching although direct
@@ -333,15 +342,23 @@ func runC07(c *Ctx) {
 	c.Rule("C07.candidates", "E-GUARD", "the scan strategy one label index (endpoint-own / parent) offers for a selector's label restriction is adopted as the candidate scan only where, on every path, the other index's strategy for the same restriction was tested to be empty (c04Candidates)", 2)
 	// (c04Candidates only needs the program, its functions and the index type: reuse this run's
 	// program instead of c04BuildModel's separate load and unrelated C04 anchors.)
-	idxTN, _ := p.LookupObj(c07IdxPkg, "SelectorAndNamedPortIndex").(*types.TypeName)
-	if idxTN == nil {
-		c.Lost("type felix/labelindex.SelectorAndNamedPortIndex")
-	}
-	if _, isStruct := idxTN.Type().Underlying().(*types.Struct); !isStruct {
-		c.Lost("felix/labelindex.SelectorAndNamedPortIndex is not a struct")
-	}
-	m04 := &c04Model{c: c, p: p, pd: map[*ssa.Function]map[*ssa.BasicBlock]map[*ssa.BasicBlock]bool{}, funcs: m.funcs, idxT: idxTN}
-	c.Alias("C04.candidates", "C07.candidates", func() { c04Candidates(c, m04, idxTN) })
+	c01Isolated(c, func() {
+		idxTN, _ := p.LookupObj(c07IdxPkg, "SelectorAndNamedPortIndex").(*types.TypeName)
+		if idxTN == nil {
+			c.Lost("type felix/labelindex.SelectorAndNamedPortIndex")
+		}
+		if _, isStruct := idxTN.Type().Underlying().(*types.Struct); !isStruct {
+			c.Lost("felix/labelindex.SelectorAndNamedPortIndex is not a struct")
+		}
+		var idxFuncs []*ssa.Function
+		for _, f := range c07FuncsWithBodies(p) {
+			if top := topFn(f); top.Pkg != nil && top.Pkg.Pkg.Path() == calicoPrefix+c07IdxPkg {
+				idxFuncs = append(idxFuncs, f)
+			}
+		}
+		m04 := &c04Model{c: c, p: p, pd: map[*ssa.Function]map[*ssa.BasicBlock]map[*ssa.BasicBlock]bool{}, funcs: idxFuncs, idxT: idxTN}
+		c.Alias("C04.candidates", "C07.candidates", func() { c04Candidates(c, m04, idxTN) })
+	})
 }
 
 func c07BuildModel(c *Ctx, p *Prog) *c07Model {
@@ -1219,6 +1236,9 @@ func c07Combine(c *Ctx, p *Prog) {
 				case *ssa.Call:
 					if x.Common().IsInvoke() && x.Common().Method.Name() == "LabelRestrictions" {
 						result[x] = true
+					} else if c07ReturnsOperandMap(x, 0) {
+						// an in-package helper that hands back an operand's restrictions / a fresh map
+						result[x] = true
 					} else {
 						bad = "returned map comes from " + path(x)
 					}
@@ -1231,68 +1251,75 @@ func c07Combine(c *Ctx, p *Prog) {
 			allUndecided("%s.LabelRestrictions: %s", cm.name, bad)
 			continue
 		}
-		// ---- merge loops
+		// ---- merge loops: in LabelRestrictions itself and in the in-package helpers
+		// it hands the accumulated map to (their parameters classified from the call)
 		perField := map[int][]string{}
 		unsure := map[int][]string{}
 		nLoops := 0
-		allInstrs(lr, false, func(_ *ssa.Function, in ssa.Instruction) {
-			nx, ok := in.(*ssa.Next)
-			if !ok || nx.IsString {
-				return
-			}
-			rg, ok := nx.Iter.(*ssa.Range)
-			if !ok {
-				return
-			}
-			cb := &c07Comb{fn: lr, st: lrST, nf: lrST.NumFields(), result: result, disj: disj,
-				allocs: map[*ssa.Alloc][]c07Sym{}, vals: map[ssa.Value]c07Sym{}, pred: map[*ssa.BasicBlock]*ssa.BasicBlock{}}
-			entry := cb.classifyMap(rg.X)
-			if entry < 0 {
-				return
-			}
-			// does the body write the accumulated map?
-			head := nx.Block()
-			writes := false
-			seen := map[*ssa.BasicBlock]bool{head: true}
-			st := []*ssa.BasicBlock{head.Succs[0]}
-			for len(st) > 0 {
-				b := st[len(st)-1]
-				st = st[:len(st)-1]
-				if seen[b] {
-					continue
+		hosts := c07CombHosts(lr, lrST, result, disj)
+		for _, h := range hosts {
+			h := h
+			allInstrs(h.fn, false, func(_ *ssa.Function, in ssa.Instruction) {
+				nx, ok := in.(*ssa.Next)
+				if !ok || nx.IsString {
+					return
 				}
-				seen[b] = true
-				for _, bi := range b.Instrs {
-					if mu, ok := bi.(*ssa.MapUpdate); ok && result[mu.Map] {
-						writes = true
-					}
-					if dc, ok := isBuiltinCall(bi, "delete"); ok && result[dc.Args[0]] {
-						writes = true
+				rg, ok := nx.Iter.(*ssa.Range)
+				if !ok {
+					return
+				}
+				cb := c07NewComb(h.fn, lrST, result, disj, h.class)
+				entry := cb.classifyMap(rg.X)
+				if entry < 0 {
+					return
+				}
+				for _, r := range *nx.Referrers() {
+					if ex, ok := r.(*ssa.Extract); ok && ex.Index == 1 {
+						cb.key = ex
 					}
 				}
-				st = append(st, b.Succs...)
-			}
-			if !writes {
-				return
-			}
-			nLoops++
-			for _, r := range *nx.Referrers() {
-				if ex, ok := r.(*ssa.Extract); ok && ex.Index == 1 {
-					cb.key = ex
+				// does the body write the accumulated map (itself or through a helper it is handed to)?
+				head := nx.Block()
+				writes := false
+				seen := map[*ssa.BasicBlock]bool{head: true}
+				st := []*ssa.BasicBlock{head.Succs[0]}
+				for len(st) > 0 {
+					b := st[len(st)-1]
+					st = st[:len(st)-1]
+					if seen[b] {
+						continue
+					}
+					seen[b] = true
+					for _, bi := range b.Instrs {
+						if mu, ok := bi.(*ssa.MapUpdate); ok && cb.classifyMap(mu.Map) == 0 {
+							writes = true
+						}
+						if dc, ok := isBuiltinCall(bi, "delete"); ok && cb.classifyMap(dc.Args[0]) == 0 {
+							writes = true
+						}
+						if call, ok := bi.(*ssa.Call); ok && cb.inPkgHelper(call) != nil && c07WritesVia(cb, call, 0) {
+							writes = true
+						}
+					}
+					st = append(st, b.Succs...)
 				}
-			}
-			if cb.key == nil {
-				unsure[-1] = append(unsure[-1], "the merge loop does not bind the label (map key) it merges")
-				return
-			}
-			for _, f := range cb.run(nx, entry) {
-				if f.unsure {
-					unsure[f.field] = append(unsure[f.field], f.text)
-				} else {
-					perField[f.field] = append(perField[f.field], f.text)
+				if !writes {
+					return
 				}
-			}
-		})
+				nLoops++
+				if cb.key == nil {
+					unsure[-1] = append(unsure[-1], "the merge loop does not bind the label (map key) it merges")
+					return
+				}
+				for _, f := range cb.run(nx, entry) {
+					if f.unsure {
+						unsure[f.field] = append(unsure[f.field], f.text)
+					} else {
+						perField[f.field] = append(perField[f.field], f.text)
+					}
+				}
+			})
+		}
 		if nLoops == 0 {
 			allUndecided("%s.LabelRestrictions has no `for label, r := range <restrictions>` loop that writes the returned map", cm.name)
 			continue
@@ -1323,13 +1350,9 @@ func c07Combine(c *Ctx, p *Prog) {
 		if disj {
 			key := "C07.combine/" + cm.name + "/operands"
 			covered0, lowMax, nCalls, odd2 := false, int64(-1), 0, ""
-			for _, cs := range callsIn(lr, false, func(f *types.Func) bool { return f.Name() == "LabelRestrictions" }) {
-				cc := cs.Common()
-				if !cc.IsInvoke() {
-					continue
-				}
+			for _, oc := range c07OperandCalls(lr) {
 				nCalls++
-				ld, ok := cc.Value.(*ssa.UnOp)
+				ld, ok := oc.(*ssa.UnOp)
 				var ia *ssa.IndexAddr
 				if ok {
 					ia, _ = ld.X.(*ssa.IndexAddr)
